@@ -1,7 +1,9 @@
 import SamVerif.Props.C05
 /-! Axiom audit of every C05 property theorem (parsed by vlib/common.py). -/
-open SamVerif.Lexer
+open SamVerif.Lexer SamVerif.ParserLoops
 #print axioms scan_step_progress
 #print axioms rawLoop_fuel_irrelevant
 #print axioms scan_progress
 #print axioms scan_total
+#print axioms syntax_error_reported
+#print axioms parser_loops_progress
